@@ -140,6 +140,19 @@ pub fn judge(sheet: &Sheet, toks: &[T], opts: &Opts, output: &str) -> Vec<Findin
                 if e.must_ws_before && !a.ws_before {
                     findings.push(Finding { prop: Prop::C08, kind: "missing-meaningful-whitespace".into(), ctx: ctx.clone(), detail: format!("before {}", e.t.short()) });
                 }
+                // a blank the input does not have, written between two simple selectors of one compound selector (or inside a
+                // simple selector), is a descendant combinator: an extra token that carries meaning
+                if a.ws_before && !e.had_ws_before && i > 0 && j > 0 && ctx.starts_with("selector") {
+                    let prev = &act[j - 1].t;
+                    let ends_simple = matches!(prev, T::Ident(_) | T::Hash(_) | T::IdHash(_) | T::CloseSquare | T::CloseParen | T::Delim('*'));
+                    let starts_simple = matches!(a.t, T::Delim('.') | T::Hash(_) | T::IdHash(_) | T::OpenSquare | T::Colon);
+                    let inside_simple = (matches!(prev, T::Delim('.') | T::Colon) && matches!(a.t, T::Ident(_) | T::Func(_))) || (matches!(prev, T::Colon) && matches!(a.t, T::Colon));
+                    // (the sign comment sits between the dot and the class name: the blank rule applies to the name behind it as well)
+                    let same_selector = sheet.pieces[e.piece].ctx == sheet.pieces[exp[i - 1].piece].ctx;
+                    if same_selector && ((ends_simple && starts_simple) || inside_simple) {
+                        findings.push(Finding { prop: Prop::C08, kind: "whitespace-inserted-inside-compound-selector".into(), ctx: ctx.clone(), detail: format!("between {} and {}", prev.short(), a.t.short()) });
+                    }
+                }
                 out_index_of_piece[e.piece] = Some(j);
                 i += 1;
                 j += 1;
@@ -218,24 +231,27 @@ fn build(thorough: bool) -> Vec<Sub> {
     let d = if thorough { 3 } else { 2 };
     // 1. selectors to nesting depth d, top level, two option sets
     let n = sel_count(d);
+    // (quick: the option set with prefix and sign; thorough: also without either)
+    let no = if thorough { 2 } else { 1 };
     subs.push(Sub {
         name: format!("selectors:depth<={}", d),
-        size: n * 2,
+        size: n * no,
         gen: Box::new(move |i| {
-            let (p, s) = OPT4[(i % 2) as usize];
-            (selector_sheet(d, i / 2, &[]), opts_of(p, s))
+            let (p, s) = OPT4[1 - (i % no) as usize];
+            (selector_sheet(d, i / no, &[]), opts_of(p, s))
         }),
     });
     // 2. selectors of depth <= 1 under every wrapper chain
     let cd = if thorough { 3 } else { 2 };
     let n1 = sel_count(1);
     let nc = chain_count(cd);
+    let nwo: u64 = if thorough { 4 } else { 2 };
     subs.push(Sub {
         name: format!("wrappers:chains<={} x selectors:depth<=1", cd),
-        size: (nc - 1) * n1 * 4,
+        size: (nc - 1) * n1 * nwo,
         gen: Box::new(move |i| {
-            let (p, s) = OPT4[(i % 4) as usize];
-            let k = i / 4;
+            let (p, s) = OPT4[(i % nwo) as usize];
+            let k = i / nwo;
             let chain = chain_unrank(k / n1 + 1, cd);
             (selector_sheet(1, k % n1, &chain), opts_of(p, s))
         }),
@@ -249,6 +265,18 @@ fn build(thorough: bool) -> Vec<Sub> {
             gen: Box::new(move |i| (selector_sheet(2, i % n2, &[(i / n2) as usize]), opts_of(Some("p"), Some("S")))),
         });
     }
+    // 2c. statement at-rules with conditions in the prelude (no import sign: the generic at-rule path), every sequence of pieces
+    let sl = if thorough { 4 } else { 3 };
+    let ns = statement_count(sl);
+    subs.push(Sub {
+        name: format!("statement-preludes:pieces<={}", sl),
+        size: ns * 3 * 4,
+        gen: Box::new(move |i| {
+            let (p, s) = OPT4[(i % 4) as usize];
+            let k = i / 4;
+            (statement_sheet((k % 3) as usize, k / 3, sl), opts_of(p, s))
+        }),
+    });
     // 3. prefix spellings
     subs.push(Sub {
         name: "prefix-spellings x selectors:depth<=1".into(),
@@ -317,7 +345,11 @@ fn build(thorough: bool) -> Vec<Sub> {
     // 5. white space / comment fillers at every gap of depth<=1 selectors (one wrapper) and of value pairs
     let max_gaps = 40u64;
     let nf = FILLERS.len() as u64;
-    let nsel = if thorough { n1 } else { n1.min(3000) };
+    // quick: the atoms, the compound selectors `.c` + atom and atom + `.c` (a blank at a gap inside a function must not move
+    // to the outside: `.x:not( .a ).b`); thorough: every selector of depth <= 1
+    let a1 = atoms_count(1);
+    let nsel = if thorough { n1 } else { 3 * a1 };
+    let sel_of = move |k: u64| if thorough || k < 2 * a1 { k } else { k - 2 * a1 + 11 * a1 };
     subs.push(Sub {
         name: "fillers:selectors".into(),
         size: nsel * max_gaps * nf * 2,
@@ -328,6 +360,7 @@ fn build(thorough: bool) -> Vec<Sub> {
             k /= nf;
             let g = (k % max_gaps) as usize;
             k /= max_gaps;
+            let k = sel_of(k);
             let base = if wrap { selector_sheet(1, k, &[2]) } else { selector_sheet(1, k, &[]) };
             if g >= base.pieces.len() {
                 return (Sheet::new(), opts_of(None, None));
